@@ -40,8 +40,11 @@ class Build:
             ops = ex.paths[p]["ops"]
             nreg = len([o for o in ops if o["op"] in REG])
             cut = r.randint(nreg, len(ops))
+            kind = r.choice(["plain", "plain", "async", "flow", "jump", "load", "setvar", "jumpreset", "jumpreset"])
+            deep = common.deep_positions(ex.paths[p]["recs"], nreg)
+            if deep and kind in ("jumpreset", "plain", "jump") and r.random() < 0.8:
+                cut = r.choice(deep) + 1          # inside a thread / tunnel / function, or with choices pending
             hist = list(ops[:cut])
-            kind = r.choice(["plain", "plain", "async", "flow", "jump", "load", "setvar", "jumpreset"])
             tail = []
             if kind == "async" and cut < len(ops) and ops[cut]["op"] == "cont":
                 tail = [{"op": "cont_async", "budget": 1}, {"op": "reset", "note": "must be refused while pending unless the slice finished"},
